@@ -553,6 +553,12 @@ func genMain(args []string) {
 		genCorpus()
 	case "pairs":
 		genPairs()
+	case "optrees":
+		if thorough {
+			genOpTrees(5)
+		} else {
+			genOpTrees(4)
+		}
 	default:
 		fmt.Fprintln(os.Stderr, "unknown mode", mode)
 		os.Exit(2)
